@@ -23,6 +23,7 @@ PropsOK ==
 Step(e) ==
   CASE e.a = "Deliver"    -> Deliver(e.n)
     [] e.a = "DeliverNested" -> DeliverNested(e.n, e.k)
+    [] e.a = "DeliverReentrant" -> DeliverReentrant(e.n, e.k)
     [] e.a = "Disconnect" -> Disconnect
     [] e.a = "AppWrite"   -> AppWrite
     [] e.a = "AppClose"   -> AppClose
